@@ -10,7 +10,7 @@ from ..engine import FamilySpec
 from .common import *
 
 
-def make_self_g(I, cls, name="self"):
+def make_self_g(I, cls, name="self", raw=False):
     k = z3.Int("k")
     I.path.assume(k >= 0)
     fam = ChildFamily(I, f"{name}._inners", k)
@@ -24,10 +24,12 @@ def make_self_g(I, cls, name="self"):
         raise PathAbort()
     finally:
         o.in_init = False
+    I.ghost["family"] = fam
+    if raw:
+        return o            # exactly as the constructor left it
     o.fields["_is_fully_reduced"] = z3.Bool(f"fr[{name}]")
     o.fields["_evaluation_failed"] = z3.Bool(f"ef[{name}]")
     H.set_memo_arbitrary(I, o)
-    I.ghost["family"] = fam
     return o
 
 
@@ -148,7 +150,7 @@ def fam_g_init(cls):
     def run(prog, tier):
         def setup(I):
             I.ghost["ambient_names"] = []
-            slf = make_self_g(I, cls)
+            slf = make_self_g(I, cls, raw=True)
             I.ghost["self"] = slf
             return lambda: slf
 
@@ -156,6 +158,12 @@ def fam_g_init(cls):
             slf = I.ghost["self"]
             fam = I.ghost["family"]
             f = slf.fields
+            # (this post-condition is the contract gexec.helper_nary_init uses for nodes built
+            # inside element functions)
+            emit("fresh-node-state", ["C09", "C16"], z3.BoolVal(
+                f.get("_value", 0) is None and f.get("_is_fully_reduced", None) is False and f.get("_evaluation_failed", None) is False
+                and set(f) == {"_inners", "_variable_names", "_value", "_is_fully_reduced", "_evaluation_failed"}),
+                info=f"fields after construction: {sorted(f)}")
             inn = f.get("_inners")
             emit("operands-stored-in-order", ["C16", "C15"],
                  z3.BoolVal(isinstance(inn, gmode.SList) and inn.family is fam and inn.length.get_id() == fam.length.get_id()))
@@ -356,6 +364,7 @@ _specs1 = specs
 def specs(prog, tier):                                    # noqa: F811
     out = _specs1(prog, tier)
     out.append(fam_g_synthetic_partial(prog.classes["Add"]))
+    out.append(fam_g_synthetic_partial(prog.classes["Multiply"]))
     return out
 
 
@@ -538,4 +547,7 @@ def specs(prog, tier):                                    # noqa: F811
     sp = fam_g_compute_synthetic_partials(prog.classes["Add"])
     sp.optional = True
     out.append(sp)
+    sp2 = fam_g_compute_synthetic_partials(prog.classes["Multiply"])
+    sp2.optional = True
+    out.append(sp2)
     return out
